@@ -40,6 +40,9 @@ assumptions(PROP, [
     "the spy law's functions use only + - * / sqrt, which numpy and Python evaluate identically (IEEE, no fused multiply-add)",
     "per-point look-ups use proportional loads (one load factor for all points, as the FKM detector produces them); the class is "
     "the class of the first point by documented design, and loads one ulp beside an edge are asserted only if all points agree on the class",
+    "maximum loads are positive; a point with maximum load 0 in FIRST position is finding class F07_a (predicate f07a_first_point_zero_max, "
+    "witness replays/C07/F07_a-*.json.pending) and is not generated until that finding is registered; loads that are not proportional to the "
+    "per-point maxima (e.g. max [100,100], loads [50,150]: no error for 150, both get the class of 50) are outside the documented per-point use",
     "scalar look-ups are made on single-point tables, Series look-ups on single-point and per-point tables (the combinations the callers use)",
     "real laws are wrapped with parameters from the FKM estimates; their own accuracy is C06's business - here they are the reference for themselves",
 ])
@@ -128,6 +131,14 @@ def f06c_single_class(spec):
     table with number_of_bins == 1 (one point) cannot be built."""
     points = len(spec["max"]) if isinstance(spec["max"], list) else 1
     return spec["law"] != "spy" and spec["bins"] * points == 1
+
+
+def f07a_first_point_zero_max(spec):
+    """F07_a: per-point look-ups select the class from the FIRST point's table only.  If that point's maximum load is 0 (an
+    unloaded node that happens to come first) its table is all zero, every load falls into class 1 and all other points get
+    their class-1 value (Binned(law, [0, 100], 10).stress([0, 55]) -> 10.0 for the second point instead of 59.99)."""
+    mx = spec["max"]
+    return isinstance(mx, list) and len(mx) > 1 and mx[0][1] == 0 and any(m > 0 for _, m in mx[1:])
 
 
 def _gate(ctx, pred, fid):
@@ -253,7 +264,10 @@ def check_lookup(spec, binned, edge, expected, fn, loads, kind, ctx, node_ids=(N
     sec = "secondary" in fn
     multi = node_ids != (None,)
     if multi:
-        k = expected_class(edge[sec][0], abs(loads[0]))
+        # class of the first point (documented design); a point whose maximum load is 0 has a degenerate all-zero table and
+        # cannot define the class of proportional loads: the first point with a positive maximum does (finding class F07_a)
+        ref = next((j for j, el in enumerate(edge[sec]) if el[-1] > 0), 0)
+        k = expected_class(edge[sec][ref], abs(loads[ref]))
         in_range = k is not None
         want = None if not in_range else [sign(L) * expected[fn][i][k - 1] + 0.0 for L, i in zip(loads, node_ids)]
     else:
@@ -548,7 +562,7 @@ def per_point(case, ctx):
     n = spec["bins"]
     ids = tuple(i for i, _ in spec["max"])
     ctx.label("law:" + spec["law"], "fn:" + fn, "points:%d" % len(ids), "bins:%d" % n)
-    if _gate(ctx, f06c_single_class(spec), "F06_c"):
+    if _gate(ctx, f06c_single_class(spec), "F06_c") or _gate(ctx, f07a_first_point_zero_max(spec), "F07_a"):
         return
     binned, law, edge, expected, problems = build(spec)
     if problems:
